@@ -1041,6 +1041,10 @@ void* sim_mmap(void* addr, size_t len, int prot, int flags, int fd, off_t off) {
     if (g_active && g_cur) {
         point(K_MMAP, nullptr);
         uint64_t k = ++g_mmap_calls;
+        if (g_cfg.oom_size && len == g_cfg.oom_size && g_cfg.oom_size_nth > 0 && --g_cfg.oom_size_nth == 0) {
+            g_cfg.oom_at = k; g_cfg.oom_until = k + g_cfg.oom_size_len;
+            sim::probe("oom-aimed-at-request-size");
+        }
         if (g_cfg.oom_at && (k == g_cfg.oom_at || (k > g_cfg.oom_at && k <= g_cfg.oom_until))) {
             fault_fired("oom");
             errno = ENOMEM;
